@@ -58,7 +58,15 @@ func (d *dialer) Dial() error {
 		return nil
 	}
 	d.Unlock()
-	return d.dial(false)
+	if err := d.dial(false); err != nil {
+		// Nothing is redialing after a failed synchronous dial, so
+		// let the caller try again.
+		d.Lock()
+		d.active = false
+		d.Unlock()
+		return err
+	}
+	return nil
 }
 
 func (d *dialer) Close() error {
